@@ -2007,6 +2007,40 @@ impl<'a, C: Crypto> TransportRunner<'a, C> {
         Ok(f(result, &packet.header, &packet.buf[start..]))
     }
 
+    /// Verification hook (C03): run one step of the receive loop (`process_rx`) - the real
+    /// `handle_rx_packet`: `decode_packet` plus the reactions to its outcome (ACK for a duplicate,
+    /// Busy / CloseSession / SessionNotFound reports, session removal) - on one datagram as
+    /// received from `peer`, with everything that would be sent going to `send`.
+    ///
+    /// Calls `f` with the result (`Ok(true)` = left in place for a responder), the headers as
+    /// they are left behind and the bytes from `payload_start` on.
+    #[cfg(feature = "verif")]
+    pub async fn verif_handle_rx_datagram<S, R>(
+        &self,
+        peer: Address,
+        data: &[u8],
+        send: S,
+        f: impl FnOnce(Result<bool, Error>, &PacketHdr, &[u8]) -> R,
+    ) -> Result<R, Error>
+    where
+        S: NetworkSend,
+    {
+        let mut packet = Packet::<MAX_RX_BUF_SIZE>::new();
+        packet.peer = peer;
+        packet
+            .buf
+            .extend_from_slice(data)
+            .map_err(|_| ErrorCode::BufferTooSmall)?;
+        packet.payload_start = 0;
+
+        let send = IfMutex::new(send);
+
+        let result = self.handle_rx_packet(&mut packet, &send).await;
+
+        let start = core::cmp::min(packet.payload_start, packet.buf.len());
+        Ok(f(result, &packet.header, &packet.buf[start..]))
+    }
+
     fn decode_packet<const N: usize>(&self, packet: &mut Packet<N>) -> Result<bool, Error> {
         self.matter.with_state(|state| {
             packet.header.reset();
